@@ -452,6 +452,37 @@ pub fn run(tier: Tier, seed: u64) -> i32 {
             }
         }
     }
+    // spelled malformed members: what people coming from Java / C++ / newer AIDL actually write
+    // (data values: particular spellings of numbers, identifiers and modifiers)
+    let spelled: [(usize, &str); 60] = [
+        (0, "void f() = -1"), (0, "void f() = 1.5"), (0, "void f() = 10f"), (0, "void f() = 0x10"), (0, "void f() = +1"),
+        (0, "void f() = .5"), (0, "void f() = 1 2"), (0, "void f() = x"), (0, "void f() = \"1\""), (0, "void f() = true"),
+        (0, "const int K = 0x1F"), (0, "const int K = 0b101"), (0, "const int K = 1e5"), (0, "const int K = 1_000"),
+        (0, "const long K = 10L"), (0, "const int K = 1 << 2"), (0, "const int K = A | B"), (0, "const int K = (int) 1"),
+        (0, "const int K = -"), (0, "const int K"), (0, "void f() throws RemoteException"), (0, "public void f()"),
+        (0, "static void f()"), (0, "@Override public void f()"), (0, "void f(int... a)"), (0, "void f(final int a)"),
+        (0, "void f(int a = 1)"), (0, "void f(int[3] a)"), (0, "void f(in out int a)"), (0, "void f(List<? extends Foo> l)"),
+        (0, "oneway oneway void f()"), (0, "void void f()"), (0, "int f"), (0, "f()"), (0, "void f() {}"),
+        (1, "int x = 0x1F"), (1, "int x = 0xFF"), (1, "int[3] x"), (1, "final int x = 1"), (1, "static int x"),
+        (1, "private int x"), (1, "int x = 1 << 2"), (1, "int x = A | B"), (1, "int x y"), (1, "int = 3"),
+        (1, "List<? extends Foo> l"), (1, "Map<String> m = x y"), (1, "int x = 10L"), (1, "int x = 1e5"), (1, "long x = 1_000"),
+        (2, "A = 0x10"), (2, "A = 0xFF"), (2, "A = 1 << 2"), (2, "A = B | C"), (2, "A = 10L"),
+        (2, "A = 1e5"), (2, "A = -"), (2, "A B"), (2, "A = = 1"), (2, "int A"),
+    ];
+    for (ki, text) in spelled {
+        let lx = crate::model::lex::lex(text);
+        if lx.unlexable.is_some() {
+            continue;
+        }
+        let bad: Vec<Tok> = lx
+            .toks
+            .iter()
+            .map(|t| Tok { kind: t.kind, text: text[t.start..t.end].to_string() })
+            .collect();
+        for pos in 0..3 {
+            fused.push((ki, pos, bad.clone(), format!("{:?} position {pos}: spelled member `{text}`", KINDS[ki])));
+        }
+    }
     let nf = fused.len();
     super::drive(
         &stats,
@@ -465,7 +496,7 @@ pub fn run(tier: Tier, seed: u64) -> i32 {
         },
         check_case,
     );
-    stats.space(json!({"space": "fused pairs of well-formed members (first terminator forgotten) and token patterns repeated 1..=24, 32, 40, 48, 64 and 96 times", "cases": nf}));
+    stats.space(json!({"space": "fused pairs of well-formed members (first terminator forgotten), token patterns repeated 1..=24, 32, 40, 48, 64 and 96 times, and 60 spelled Java-isms (hex / suffixed / negative numbers, modifiers, varargs, shifts)", "cases": nf}));
     // how many recoveries one malformed member costs is the implementation's choice (a parser that
     // resynchronises at the terminator reports exactly one): counted in the outcomes, not demanded
     let any = (1..=4).map(|k| stats.outcome_count(&format!("syntax-errors:{k}"))).sum::<u64>();
